@@ -100,10 +100,23 @@ Proof.
   rewrite E. apply rstrip_none. now apply alnum_has.
 Qed.
 
-Theorem py_int_dec n : 0 <= n -> py_int (dec n) = Some n.
+(* a decimal field CPython still converts: at most sys.int_info.default_max_str_digits (4300) digits *)
+Definition short (n : Z) : Prop := (List.length (dec n) <= max_str_digits)%nat.
+
+Lemma count_digits_all s : forallb is_digit s = true -> count_digits s = List.length s.
 Proof.
-  intros Hn. unfold py_int. rewrite strip_alnum by (try special_tac; now apply dec_alnum).
-  destruct (dec_spec n Hn) as (l & E & Hl & Hv & Hne). rewrite E.
+  unfold count_digits. induction s as [|c s IH]; [reflexivity|]. cbn [forallb filter].
+  intros H. apply andb_true_iff in H as [Hc Hs]. rewrite Hc. cbn [List.length]. now rewrite IH.
+Qed.
+
+Theorem py_int_dec n : 0 <= n -> short n -> py_int (dec n) = Some n.
+Proof.
+  intros Hn Hs. unfold py_int.
+  destruct (dec_spec n Hn) as (l & E & Hl & Hv & Hne).
+  assert (Hc : Nat.ltb max_str_digits (count_digits (dec n)) = false).
+  { apply Nat.ltb_ge. rewrite count_digits_all; [exact Hs|]. rewrite E. apply map_dec_char_props, Hl. }
+  rewrite Hc. rewrite strip_alnum by (try special_tac; now apply dec_alnum).
+  rewrite E.
   destruct l as [|d l]; [congruence|].
   cbn [map]. pose proof (Forall_inv Hl) as Hd. cbv beta in Hd.
   destruct (dec_char_digit d Hd) as (_ & _ & E3).
@@ -117,6 +130,9 @@ Lemma dec_length n k : 0 <= n < 10 ^ Z.of_nat k -> (1 <= k)%nat -> (List.length 
 Proof.
   intros Hn Hk. unfold dec. rewrite map_length. apply digits_of_length; [lia|exact Hn|exact Hk].
 Qed.
+
+Lemma short_small n k : 0 <= n < 10 ^ Z.of_nat k -> (1 <= k <= max_str_digits)%nat -> short n.
+Proof. intros Hn Hk. unfold short. pose proof (dec_length n k Hn ltac:(lia)). lia. Qed.
 
 Lemma devid_dec serials n : 0 <= n < 10 ^ 9 -> devid_of serials (dec n) = Some n.
 Proof.
